@@ -1,7 +1,8 @@
 (* C13 -- schema validation accepts valid schemas and rejects each rule
    violation.  Statements only; proofs are in Proofs/SchemaValProofs.v. *)
 From PyGql Require Import Schema.SchemaFull Schema.SchemaValidateModel Spec.SchemaValidSpec
-  Proofs.SchemaValProofs Proofs.SchemaVerdictProofs Spec.SchemaReportSpec Proofs.SchemaReportProofs.
+  Proofs.SchemaValProofs Proofs.SchemaVerdictProofs Spec.SchemaReportSpec Proofs.SchemaReportProofs
+  Proofs.SchemaStructuralProofs.
 From Coq Require Import Permutation.
 
 (* The covariance check used for interface implementations decides exactly
@@ -101,6 +102,16 @@ Proof.
   - apply reported_are_violations.
 Qed.
 Print Assumptions C13_all_reported.
+
+(* Structural mode, validate_schema(schema, enable_resolver_validation=False):
+   exactly the errors of the default mode that are not resolver-signature
+   errors, in the same order -- every other rule (duplicate members included)
+   fires as in the default mode, for every schema.  (Exact because resolver
+   errors are the last check of a field and never mask another check.) *)
+Theorem C13_structural_mode : forall s,
+  validate_structural s = filter not_resolver_error (validate_model s).
+Proof. exact structural_mode. Qed.
+Print Assumptions C13_structural_mode.
 
 (* non-vacuity *)
 Local Open Scope string_scope.
